@@ -270,6 +270,10 @@ def bounded_hof(tier, seed):
         ('fold-left(1 to 3, (1, 2), function($a, $b) { ($a, $b) })', [1, 2, 1, 2, 3]), ('fold-right(1 to 3, (1, 2), function($a, $b) { ($a, $b) })', [1, 2, 3, 1, 2]),
         ('fold-left((), (7, 8), function($a, $b) { $a })', [7, 8]), ('sort((true(), false(), true()))', [False, True, True]),
         ("sort(('true', '0', '1', 'false'), (), xs:boolean#1)", ['0', 'false', 'true', '1']),
+        # the function argument of apply / function-arity / function-name is evaluated, also when it is a function call
+        ("apply(function-lookup(xs:QName('fn:abs'), 1), [-3])", 3), ("function-arity(function-lookup(xs:QName('fn:abs'), 1))", 1),
+        ("string(function-name(function-lookup(xs:QName('fn:abs'), 1)))", 'fn:abs'), ("apply(head((abs#1, 1)), [-2])", 2), ("function-arity(head((string-length#0, 1)))", 0),
+        ("function-arity(concat(?, 'b', ?))", 2), ("apply(concat#3, ['a', 'b', 'c'])", 'abc'), ("apply(abs#1, [1, 2])", ('raise', 'FOAP0001')),
         # the name and arity of a partial application do not depend on what was asked of the function item before
         ("let $f := abs#1 return (string(function-name($f)), empty(function-name($f(?))), function-arity($f(?)), string(function-name($f)))", ['fn:abs', True, 1, 'fn:abs']),
         ("let $f := concat#3 return (function-arity($f), function-arity($f(?, 'b', ?)), empty(function-name($f('a', ?, ?))), string(function-name($f)))", [3, 2, True, 'fn:concat']),
